@@ -69,6 +69,7 @@ func (r *BReq) Replied() int64 {
 // Action is what a fake node does with a request.
 type Action struct {
 	hold             bool // handshake reply to be merged with the next reply
+	MergeNext        bool // hold this reply back and write it together with the next reply of the connection in one write
 	Reply            []byte
 	Gate             *Gate         // wait for it before writing the reply
 	Chunks           []int         // write the reply in pieces of these sizes (rest in one)
@@ -165,13 +166,13 @@ type Cluster struct {
 	// next reply in one write.
 	HandshakeMode string
 
-	mu          sync.Mutex
-	handler     Handler
-	nodesReply  func(n *Node) []byte // full RESP reply to CLUSTER NODES
-	malformed   []Malformed
-	log         []*BReq
-	protoStrict bool
-	killProbes  int // close the connection instead of answering the next n CLUSTER NODES requests
+	mu           sync.Mutex
+	handler      Handler
+	nodesReply   func(n *Node) []byte // full RESP reply to CLUSTER NODES
+	malformed    []Malformed
+	log          []*BReq
+	protoStrict  bool
+	killProbes   int // close the connection instead of answering the next n CLUSTER NODES requests
 	probesServed int // CLUSTER NODES requests answered with the current generator
 }
 
@@ -619,7 +620,7 @@ func (bc *BConn) writeLoop() {
 			}
 		}
 		a := p.a
-		if a.hold {
+		if a.hold || a.MergeNext {
 			held = append(held, a.Reply...)
 			p.r.mu.Lock()
 			p.r.Reply = a.Reply
